@@ -370,7 +370,8 @@ def _dir_placement(repo, ob, failure):
 @generator("C16.cond.")
 def _cond_nonzero(repo, ob, failure):
     """<if test=V> renders its body exactly when V is non-zero; while / until likewise"""
-    for v, want in (("-1", True), ("0", False), ("0.5", True), ("-0.25", True), ("2", True), ("{{0 - 3}}", True)):
+    for v, want in (("-1", True), ("0", False), ("0.5", True), ("-0.25", True), ("2", True), ("{{0 - 3}}", True),
+                    ("0.0004", True), ("1 / 4000", True), ("-0.0001", True), ("0.0", False), ("1 - 1", False)):
         doc = '<svg><if test="%s"><rect id="z" wh="3"/></if></svg>' % v
         r = run_svgdx(repo, doc)
         if r["rc"] != 0:
@@ -975,3 +976,22 @@ def _retry_bindings(repo, ob, failure):
 
 
 GENERATORS.insert(0, ("C15.retry.", _retry_bindings))
+
+
+def _inside_transformed(repo, ob, failure):
+    """a rect given inside= a circle / ellipse that carries a transform lies within the shape AS DRAWN"""
+    import re as _re
+    cases = [('<svg><circle id="c" cx="0" cy="0" r="10" transform="translate(100 0)"/><rect inside="#c"/></svg>', r'<rect x="92.929" y="-7.071" width="14.142" height="14.142"'),
+             ('<svg><ellipse id="c" cx="0" cy="0" rx="20" ry="10" transform="translate(0 50)"/><rect inside="#c"/></svg>', r'<rect x="-14.142" y="42.929" width="28.284" height="14.142"'),
+             ('<svg><circle id="c" cx="5" cy="5" r="10"/><rect inside="#c"/></svg>', r'<rect x="-2.071" y="-2.071" width="14.142" height="14.142"')]
+    for doc, want in cases:
+        r = run_svgdx(repo, doc)
+        if r["rc"] != 0:
+            continue
+        body = r["out"].split("</style>")[-1]
+        if not _re.search(want, body):
+            return {"input": doc, "observed": "written as " + body.strip()[-150:], "expected": "/%s/" % want}
+    return None
+
+
+GENERATORS.insert(0, ("C12.inside.rect_in_", _inside_transformed))
